@@ -47,6 +47,47 @@ def closure_key(c):
     return json.dumps(scrub(c[1]), sort_keys=True) if c and c[0] == 'closure' else repr(c)
 
 
+def mentions(t, sub):
+    if t == sub:
+        return True
+    if isinstance(t, (tuple, list)):
+        return any(mentions(x, sub) for x in t)
+    return False
+
+
+def order_key(ogp, entry):
+    """the key by which a sort / dedup step of a `reorder` chain compares elements, as a term over the symbolic element A:
+    sort_by_key(|s| K) / dedup_by_key(|s| K) -> K;  sort_by(|a, b| K(a).cmp(&K(b))) -> K;  dedup_by(|a, b| K(a) == K(b)) -> K;
+    sort() / dedup() -> the element itself; None when the closure is of another shape"""
+    A, B = ('param', '$key', 'a'), ('param', '$key', 'b')
+    m, args = entry[2], entry[3]
+
+    def swap(t):
+        if isinstance(t, tuple):
+            if t == B:
+                return A
+            return tuple(swap(x) for x in t)
+        if isinstance(t, list):
+            return [swap(x) for x in t]
+        return t
+    if not args:
+        return A if m in ('sort', 'dedup', 'sort_unstable') else None
+    clo = args[0]
+    if not (isinstance(clo, tuple) and clo and clo[0] == 'closure'):
+        return None
+    try:
+        if m in ('sort_by_key', 'dedup_by_key', 'sort_unstable_by_key'):
+            return ogp.it.apply_detached(clo, [A])
+        r = ogp.it.apply_detached(clo, [A, B])
+    except Exception:
+        return None
+    if m in ('sort_by', 'sort_unstable_by') and r[0] == 'mcall' and r[2] in ('cmp',) and len(r[3]) == 1 and swap(r[3][0]) == r[1] and not mentions(r[1], B):
+        return r[1]
+    if m == 'dedup_by' and r[0] == 'eq' and swap(r[2]) == swap(r[1]):
+        return swap(r[1])
+    return None
+
+
 def run(rep):
     ogp = E.load()
     sch = S.load()
@@ -55,23 +96,15 @@ def run(rep):
                    'rustc: repr(C) + offset_of!/size_of']
     crate = ogp.crate
     # ---- A: attribute template ---------------------------------------------------------------------------------------------------
-    hits = []
-    for q, v in ogp.summaries.items():
-        for t in E.find_templates(v, lambda t: 'pub const VERTEX_ATTRIBUTES' in E.tmpl_text(t)):
-            if t[3] == q:
-                hits.append((q, t))
+    hits = E.repetition_anchor(ogp, lambda t: 'pub const VERTEX_ATTRIBUTES' in E.tmpl_text(t))
     rep.floor('vertex impl template (VERTEX_ATTRIBUTES / vertex_buffer_layout)', len(hits), 1)
     if not hits:
         return
-    q, it = hits[0]
+    q, it, _s = hits[0]
     f = crate.fns[q]
     where = f"{crate.relfile(f['file'])} fn {f['name']} (template at {it[1]})"
     summ = ogp.summaries[q]
-    outer = []
-    E.walk(summ, lambda x: outer.append(x) if x[0] == 'star' and E.find_templates(x[3], lambda y: y is it) else None)
-    if len(outer) != 1:
-        rep.bad('C07.anchor', 'impl-repetition', where, f'{len(outer)} repetitions produce vertex impl blocks', undecided=True)
-        return
+    outer = [_s]
     os_ = outer[0]
     base, chain = strip_reorder(os_[1])
     # C: sort + dedup discipline
@@ -81,8 +114,9 @@ def run(rep):
     names = [c[2] for c in chain]
     if names:
         # chain is outermost first: dedup(outer) wraps sort(inner)
+        k_d, k_s = (order_key(ogp, chain[0]), order_key(ogp, chain[1])) if len(chain) == 2 else (None, None)
         ok = len(chain) == 2 and chain[0][2].startswith('dedup') and chain[1][2].startswith('sort') and \
-            closure_key(chain[0][3][0] if chain[0][3] else None) == closure_key(chain[1][3][0] if chain[1][3] else None) and chain[0][4] == TRUE and chain[1][4] == TRUE
+            k_d is not None and k_d == k_s and chain[0][4] == TRUE and chain[1][4] == TRUE
         rep.check(ok, 'C07.C.sort-then-dedup', 'sort-then-dedup', where,
                   f'shared vertex input structs are de-duplicated by {list(reversed(names))}: only `sort_by_key(k)` followed by `dedup_by_key(k)` with the same key removes non-adjacent repeats '
                   f'(a struct used by several entries would get two impl blocks)', ok_detail='sort_by_key(name) then dedup_by_key(name)')
@@ -180,21 +214,13 @@ def run(rep):
                       f'{label} is given vertex format {got}; expected {exp} (same scalar kind, width and component count)', ok_detail=got)
     rep.floor('vertex format table rows', n, 16)
     # ---- D: per-entry helper ----------------------------------------------------------------------------------------------------------
-    eh = []
-    for q2, v in ogp.summaries.items():
-        for t in E.find_templates(v, lambda t: '-> VertexEntry < #' in E.tmpl_text(t)):
-            if t[3] == q2:
-                eh.append((q2, t))
+    eh = E.repetition_anchor(ogp, lambda t: '-> VertexEntry < #' in E.tmpl_text(t))
     rep.floor('vertex entry helper template', len(eh), 1)
-    for q2, ht in eh[:1]:
+    for q2, ht, _s2 in eh[:1]:
         f2 = crate.fns[q2]
         w2 = f"{crate.relfile(f2['file'])} fn {f2['name']} (template at {ht[1]})"
         s2 = ogp.summaries[q2]
-        es = []
-        E.walk(s2, lambda x: es.append(x) if x[0] == 'star' and E.find_templates(x[3], lambda y: y is ht) else None)
-        if len(es) != 1:
-            rep.bad('C07.anchor', 'entry-repetition', w2, f'{len(es)} repetitions produce vertex entry helpers', undecided=True)
-            continue
+        es = [_s2]
         e_s = es[0]
         ent = ('elem', e_s[2], e_s[1])
         ok = e_s[1][0] == 'f' and e_s[1][2] == 'entry_points' and len(e_s[4]) == 1 and is_vertex_cond(e_s[4][0], ent) and not e_s[5]
